@@ -1018,8 +1018,8 @@ static void list_output_msp430_both(
 
 static void disasm_range_msp430_both(
   Memory *memory,
-  int start,
-  int end,
+  uint32_t start,
+  uint32_t end,
   int msp430x)
 {
   // Are these correct and the same for all MSP430's?
@@ -1111,6 +1111,9 @@ static void disasm_range_msp430_both(
       printf("0x%04x: 0x%04x\n", start, num);
       count -= 2;
     }
+
+    // The last word of the address space: start would wrap around to 0.
+    if (start + 2 < start) { break; }
 
     start = start + 2;
   }
